@@ -591,7 +591,8 @@ def run_unit_closure(acc, cfg):
             for e in (-2, -1, 0, 1, 2, Fraction(1, 2)):
                 a = mk(na, wa)
                 case = {"cfg": cfg, "a": na, "a_asked_before": wa, "op": f"a ** {e}"}
-                ee = e if isinstance(e, int) else 0.5
+                # (a non-integer exponent in the registry's own numeric type: Decimal * float is not defined)
+                ee = e if isinstance(e, int) else {"Fraction": Fraction(1, 2), "Decimal": __import__("decimal").Decimal("0.5")}.get(cfg, 0.5)
                 verify(a ** ee, dimkey({k: v * e for k, v in da.items() if e}), case)
             a = mk(na, wa)
             verify(1 / a, dimkey({k: -v for k, v in da.items()}), {"cfg": cfg, "a": na, "a_asked_before": wa, "op": "1 / a"})
